@@ -97,8 +97,14 @@ Definition quoted (x : str) : str := [34%N] ++ x ++ [34%N].
 (* namers visible to a generator: the context's, overridden by its own (set union, sorted) *)
 Definition union_sorted (a b : list str) : list str :=
   sort_strs (fold_left (fun acc x => if mem_str x acc then acc else acc ++ [x]) (a ++ b) []).
+(* each visible name is marked with whose naming system it is bound to: on a collision the
+   generator's own wins ("=own"), every other name keeps the context's ("=ctx") *)
+Definition own_mark (own : bool) (n : str) : str := n ++ s (if own then "=own" else "=ctx").
 Definition visible_namers (c : ctx) (g : gen) : list str :=
-  match gnamers g with None => sort_strs (namers c) | Some l => union_sorted (namers c) l end.
+  match gnamers g with
+  | None => map (own_mark false) (sort_strs (namers c))
+  | Some l => map (fun n => own_mark (mem_str n l) n) (union_sorted (namers c) l)
+  end.
 
 Section Itoa.
 Variable itoa : N -> str.
